@@ -15,6 +15,12 @@ NOTES = {
  "C07_E": "At first only 'no-failing-input-found'. Oracle now has samples with an undefined (NaN) double-source-plane term next to finite lenses. ",
  "C14_F": "At first only 'no-failing-input-found'. Oracle now checks the model Ddt of IFU-population lenses whose only scatter is lambda_ifu_sigma. ",
  "C15_F": "At first only 'no-failing-input-found': the oracle's tolerance test accepted -1.8e308 for -inf (inf <= inf). Repaired: -inf only equals -inf. ",
+ "C06_H": "MISSED by C06 quick at first (no case with an empty magnitude block; the 1-delay/1-image theorem still held). Added oracle cases with zero magnitudes and theorem C06_tdmag_magnitude_without_magnitudes. ",
+ "C12_G": "At first only 'no-failing-input-found' (bandwidth-rule cases never had repeated sample values). Oracle now keeps 'discrete' chains with different weights on the copies. ",
+ "C14_G": "At first only 'no-failing-input-found'. Oracle now has IFU maps with 110-240 bins (normalised likelihood vs the reported quantities). ",
+ "C11_G": "At first only 'no-failing-input-found'. Oracle now hands over column-major covariances in 40% of the custom samples. ",
+ "C11_H": "At first only 'no-failing-input-found' (custom samples were always sorted by redshift). Oracle now lists half of them in another order. ",
+ "C19_G": "At first only 'no-failing-input-found'. Oracle now makes an equation-of-state step at fixed (h0, om) on one object before the H0 rescaling. ",
  "C06_E": "Oracle got IFU maps with 120-260 bins (det C outside the binary64 range) in anticipation. ",
 }
 for s in sorted(os.listdir("/verif/seeded")):
